@@ -1,3 +1,4 @@
+import re
 """C14 date arithmetic: to_duration / from_duration, Value +/- on DateTime, offset conversion.
 chrono is replaced by its documented contract (library-model table): TimeDelta = Int ns within
 +-i64::MAX ms, DateTime = (instant ns, zone token) within abstract bounds [DT_MIN, DT_MAX]."""
@@ -491,9 +492,45 @@ class OffsetConversion(Harness):
         mm = chr(int(inputs['m0'])) + chr(int(inputs['m1']))
         return '%s%s:%s' % ('+' if int(inputs['sign']) > 0 else '-', hh, mm), int(inputs['sign']) * (int(hh) * 3600 + int(mm) * 60)
 
+    def prefer(self, ctx):
+        return [ctx['d'] == 1577836800123456789]
+
+    @staticmethod
+    def _instant(inputs):
+        """the model's instant if a literal can spell it (years 1..9999), else 2020-01-01 00:00:00.123456789"""
+        try:
+            d = int(inputs.get('d'))
+        except (TypeError, ValueError):
+            d = None
+        if d is None or not (-62135596800 * 10 ** 9 < d < 253402300799 * 10 ** 9):
+            d = 1577836800123456789
+        return d
+
+    @staticmethod
+    def _literal(d):
+        import datetime as _dt
+        secs, ns = divmod(d, 10 ** 9)
+        t = _dt.datetime(1970, 1, 1) + _dt.timedelta(seconds=secs)
+        return '%04d-%02d-%02d %02d:%02d:%02d.%09d +00:00' % (t.year, t.month, t.day, t.hour, t.minute, t.second, ns)
+
+    @staticmethod
+    def _instant_of_rfc3339(text):
+        import datetime as _dt
+        m = re.match(r'^(-?\d{4,})-(\d\d)-(\d\d)T(\d\d):(\d\d):(\d\d)(?:\.(\d+))?(Z|[+-]\d\d:\d\d)$', text or '')
+        if not m:
+            return None
+        y, mo, da, h, mi, se = (int(m.group(k)) for k in range(1, 7))
+        frac = (m.group(7) or '')[:9].ljust(9, '0')
+        off = 0
+        if m.group(8) != 'Z':
+            sg = 1 if m.group(8)[0] == '+' else -1
+            off = sg * (int(m.group(8)[1:3]) * 3600 + int(m.group(8)[4:6]) * 60)
+        base = (_dt.datetime(y, mo, da, h, mi, min(se, 59)) - _dt.datetime(1970, 1, 1))
+        return ((base.days * 86400 + base.seconds + (se - min(se, 59))) - off) * 10 ** 9 + int(frac)
+
     def native(self, inputs, label):
         txt, secs = self._text(inputs)
-        return [{'mode': 'query', 'text': '#2020-01-01 00:00:00 +00:00# -> %s' % txt}]
+        return [{'mode': 'query', 'text': '#%s# -> %s' % (self._literal(self._instant(inputs)), txt)}]
 
     def judge(self, inputs, label, obs):
         txt, secs = self._text(inputs)
@@ -507,7 +544,18 @@ class OffsetConversion(Harness):
         if abs(secs) >= 86400:
             return (q.get('outcome') != 'err'), '`-> %s` gave %s' % (txt, q.get('display'))
         j = q.get('json') or {}
-        return (q.get('outcome') != 'ok' or j.get('type') != 'date'), '`-> %s` gave %s' % (txt, q.get('display'))
+        if q.get('outcome') != 'ok' or j.get('type') != 'date':
+            return True, '`-> %s` gave %s' % (txt, q.get('display'))
+        d = self._instant(inputs)
+        got = self._instant_of_rfc3339(j.get('rfc3339'))
+        if got is None:
+            return False, '`-> %s`: reply %s not understood by the judge' % (txt, j.get('rfc3339'))
+        if got != d:
+            return True, '`#%s# -> %s` gave %s: the instant moved by %d ns' % (self._literal(d), txt, j.get('rfc3339'), got - d)
+        want_off = '%s%02d:%02d' % ('+' if secs >= 0 else '-', abs(secs) // 3600, abs(secs) % 3600 // 60)
+        if not (j.get('rfc3339') or '').endswith(want_off) and not (secs == 0 and (j.get('rfc3339') or '').endswith('Z')):
+            return True, '`-> %s` gave %s: not in the requested offset' % (txt, j.get('rfc3339'))
+        return False, '`#%s# -> %s` gave %s: same instant' % (self._literal(d), txt, j.get('rfc3339'))
 
 
 def harnesses(tier):
